@@ -204,6 +204,9 @@ func (a *AddressDecMap) Decode(r stdio.Reader) (err error) {
 		if err != nil {
 			return errors.WithMessage(err, "decoding map index")
 		}
+		if backend[BackendID(idx)] == nil {
+			return errors.Errorf("no wallet backend with id %d", idx)
+		}
 		addr := NewAddress(BackendID(idx))
 		err = perunio.Decode(r, addr)
 		if err != nil {
